@@ -1,5 +1,6 @@
+from xeng import progs, progs2, progs3
 from . import _common
 
 
 def run(out):
-    _common.run(out, 'C15', s_props=['C15'])
+    _common.run(out, 'C15', x=[], s_props=['C15'])
